@@ -1469,4 +1469,54 @@ V('20.10', 'C20', 'R20f', 'fire', YTY,
   "                return value.replace(tzinfo=self.utctz)\n",
   "                return datetime.datetime(\n                    value.year, value.month, value.day, value.hour,\n                    value.minute, value.second, value.microsecond,\n                    self.utctz)\n",
   'datetime rebuilt field by field')
+
+# ------------------------------------------- rules added after seed round 4
+V('01.9', 'C01', 'R01h', 'fire', LEX,
+  "        val = t.value[:-1]\n        t.value = val\n        return t\n",
+  "        val = t.value[:-1]\n        t.value = val\n        t.lexer.push_state('INITIAL')\n        t.lexer.pop_state()\n        return t\n",
+  'token action pushes / pops the lexer state stack shared by clones')
+V('18.9', 'C18,C01', 'R18g', 'fire', UTI,
+  "    if quota <= 0:\n        return\n\n    total = 0\n",
+  "    if quota <= 0:\n        return\n    sys.setrecursionlimit(max(sys.getrecursionlimit(), 2000))\n\n    total = 0\n",
+  'library code raises the recursion limit of the whole process')
+V('18.9t', 'C18', '', 'silent', UTI,
+  "    if quota <= 0:\n        return\n\n    total = 0\n",
+  "    if quota <= 0 or sys.getrecursionlimit() < 10:\n        return\n\n    total = 0\n",
+  'twin: reads the setting only')
+V('08.12', 'C08', 'R08j', 'fire', COL,
+  "        result[key] = value\n        utils.limit_memory_usage(engine, (1, result))\n    return result\n",
+  "        result[key] = value\n    utils.limit_memory_usage(engine, (1, result))\n    return result\n",
+  'toDict measures its table once, after the loop')
+V('10.9', 'C10', 'R10f', 'fire', FAC,
+  "        self._options = utils.FrozenDict(options or {})\n",
+  "        self._options = options or {}\n",
+  'engine keeps the caller dict itself')
+V('10.9t', 'C10', '', 'silent', FAC,
+  "        self._options = utils.FrozenDict(options or {})\n",
+  "        snapshot = dict(options or {})\n        self._options = utils.FrozenDict(snapshot)\n",
+  'twin: copied through a local')
+V('17.10', 'C17,C10,C04', 'R17i', 'fire', CTX,
+  "            result = ctx.get_data(name, utils.NO_VALUE, False)\n            if result is utils.NO_VALUE:\n                ctx = ctx.parent\n            else:\n                return result\n        return default\n\n    def __delitem__(self, name):\n        self._data.pop(self._normalize_name(name))",
+  "            result = ctx.get_data(name, None, False)\n            if result is None:\n                ctx = ctx.parent\n            else:\n                return result\n        return default\n\n    def __delitem__(self, name):\n        self._data.pop(self._normalize_name(name))",
+  'None as the not-bound marker in the parent walk')
+V('13.8', 'C13', 'R13d', 'fire', UTI,
+  "            self._hash = 0\n            for pair in self.items():\n                self._hash ^= hash(pair)\n",
+  "            self._hash = hash(tuple(sorted(self._d.items(), key=repr)\n                                    if False else self._d.items()))\n",
+  'order-sensitive FrozenDict hash')
+V('13.8t', 'C13', '', 'silent', UTI,
+  "            self._hash = 0\n            for pair in self.items():\n                self._hash ^= hash(pair)\n",
+  "            self._hash = hash(frozenset(self._d.items()))\n",
+  'twin: frozenset of the items')
+V('12.9', 'C12', 'R12j', 'fire', UTI,
+  "        if not is_keyword(name):\n            del parameters[name]\n",
+  "        if not is_keyword(name) or name.endswith('_'):\n            del parameters[name]\n",
+  'call() also drops names with a trailing underscore')
+V('12.9t', 'C12', '', 'silent', UTI,
+  "    parameters = dict(parameters)\n    for name in parameters.keys():\n        if not is_keyword(name):\n            del parameters[name]\n    return parameters\n",
+  "    return {name: value for name, value in parameters.items()\n            if is_keyword(name)}\n",
+  'twin: dict comprehension')
+V('02.9', 'C02,C16', 'R02h', 'fire', FAC,
+  "            ('mod', OperatorType.BINARY_LEFT_ASSOCIATIVE),\n",
+  "            ('mod', OperatorType.BINARY_LEFT_ASSOCIATIVE),\n            ('rem', OperatorType.BINARY_LEFT_ASSOCIATIVE),\n",
+  'undocumented operator word in the default table')
 VARIANTS = [v for v in VARIANTS if v is not None]
